@@ -12,4 +12,8 @@ python3 e4/mkoverlay.py .build/overlay
 go1.26.8 test -c -tags verif -vet=off -overlay .build/overlay/overlay.json -o .build/e4.test ./e4
 python3 e4/mkoverlay.py .build/overlay.race
 go1.26.8 test -c -race -tags verif -vet=off -overlay .build/overlay.race/overlay.json -o .build/e4.race.test ./e4
+# E5: the harness test compiled into /repo/cmd/wasp through an overlay (nothing is written to /repo)
+mkdir -p .build/overlay-e5
+printf '{"Replace": {"/repo/cmd/wasp/zz_verif_e5_test.go": "%s/e5/cmdwasp_test.go.src"}}\n' "$(pwd)" > .build/overlay-e5/overlay.json
+(cd /repo && go1.26.8 test -c -tags verif -vet=off -overlay "$OLDPWD/.build/overlay-e5/overlay.json" -o "$OLDPWD/.build/e5.test" ./cmd/wasp)
 echo setup ok
